@@ -173,13 +173,12 @@ package jet
 //@ func (*Runtime).SetOrLet
 //@   props C18
 //@   requires RtOK(state)
-//@   modifies mapsof VarMap, type scope.variables, ghost Held
+//@   modifies mapsof VarMap, type scope.variables
 //@   nopanic
-//@   callsite (*Runtime).resolve count 1 {C18}
-//@   callsite (*Runtime).resolve 0 requires [setorlet-looks-the-name-up-like-an-identifier] {C18} name == caller.name && state == caller.state
-//@   callsite (*Runtime).Let 0 requires [let-exactly-when-no-variable-of-that-name-is-visible] {C18} lastret("(*Runtime).resolve", 1) != nil && name == caller.name && val == caller.val && state == caller.state
-//@   callsite (*Runtime).Set 0 requires [set-exactly-when-a-variable-of-that-name-is-visible] {C18} lastret("(*Runtime).resolve", 1) == nil && name == caller.name && val == caller.val && state == caller.state
-//@   check [setorlet-does-one-of-the-two] {C18} ncalls("(*Runtime).Let") + ncalls("(*Runtime).Set") == 1
+//@   callsite (*Runtime).Set 0 requires [setorlet-first-tries-to-rebind-like-an-assignment] {C18} name == caller.name && val == caller.val && state == caller.state
+//@   callsite (*Runtime).Set count 1 {C18}
+//@   callsite (*Runtime).Let 0 requires [let-exactly-when-no-scope-declares-the-variable] {C18} lastret("(*Runtime).Set", 0) != nil && name == caller.name && val == caller.val && state == caller.state
+//@   check [setorlet-always-binds-the-name] {C18} ite(lastret("(*Runtime).Set", 0) != nil, ncalls("(*Runtime).Let") == 1, ncalls("(*Runtime).Let") == 0)
 
 //@ func (*Runtime).LetGlobal
 //@   props C18 C12
@@ -649,7 +648,7 @@ package jet
 //@ func (*Runtime).executeYieldBlock
 //@   props C07 C08 C13 C10 C12 C09
 //@   check [a-block-hands-up-what-its-body-returned] {C09} returnValue == lastret("(*Runtime).executeList", 0)
-//@   requires RtOK(st) && block != nil && WF(iface(block, "*BlockNode")) && blockParam != nil && WFParams(blockParam) && yieldParam != nil && WFParams(yieldParam) && (expression != nil ==> WF(expression)) && (content != nil ==> WFL(content))
+//@   requires RtOK(st) && block != nil && WF(iface(block, "*BlockNode")) && blockParam != nil && WFParams(blockParam) && yieldParam != nil && (len(yieldParam.List) == 0 || WFParams(yieldParam)) && (expression != nil ==> WF(expression)) && (content != nil ==> WFL(content))
 //@   modifies @Interp
 //@   loop 0 entry [every-yield-argument-is-bound] {C08} i == 0
 //@   loop 1 entry [every-declared-parameter-gets-its-default-unless-bound] {C08} i == 0
@@ -760,8 +759,10 @@ package jet
 //@   requires RtOK(st)
 //@   modifies @Interp
 //@   ensures [yieldblock-balanced] SameS(st)
-//@   check [yieldblock-renders-exactly-once] ncalls("(*Runtime).executeList") == 1
-//@   callsite (*Runtime).executeList * requires [yieldblock-context] ite(caller.context != nil, st.context == RvOf(caller.context), st.context == old(st.context))
+//@   check [yieldblock-renders-exactly-once] ncalls("(*Runtime).executeYieldBlock") == 1
+//@   callsite (*Runtime).executeYieldBlock * requires [yieldblock-context] ite(caller.context != nil, st.context == RvOf(caller.context), st.context == old(st.context))
+//@   callsite (*Runtime).executeYieldBlock * requires [yieldblock-is-a-yield-without-arguments-or-content] {C18,C08} block == lastret("(*scope).getBlock", 0) && blockParam == block.Parameters && len(yieldParam.List) == 0 && expression == nil && content == nil
+//@   callsite (*Runtime).executeList count 0 {C18}
 //@   anypanic
 //@   exsures [runtime-valid-on-panic] RtX(st)
 
